@@ -1,6 +1,6 @@
 SPECIFICATION Spec
 CONSTANTS
-  Worlds <- MC_WorldsSmall
+  Worlds <- MC_WorldsTwo
   Queries <- MC_Queries
   MaxFaults = 2
   FaultsOf <- MC_FaultsOf
